@@ -285,6 +285,17 @@ class Interp:
         fl = self.flag_const(segs)
         if fl is not None:
             return [(st, fl)]
+        # associated / module constant: Type::NAME, Self::NAME, module::NAME
+        tyname = segs[-2]
+        if tyname == "Self":
+            fn0 = st.env.get("__fn")
+            tyname = norm_ty(fn0.impl["self_ty"]).split("<")[0] if fn0 is not None and fn0.impl is not None else tyname
+        for ck, it in self.f.consts.items():
+            parts = ck.split("::")
+            if parts[-1] == segs[-1] and len(parts) >= 2 and parts[-2] == tyname and "@" not in ck:
+                st2 = st.fork()
+                st2.env = dict(st.env)
+                return self.ev(it["e"], st)
         # Type::method as a function value (Size::byte_size)
         key = "%s::%s" % (segs[-2], segs[-1])
         if key in self.f.fns:
@@ -570,9 +581,36 @@ class Interp:
             out += run(else_, b)
         return out
 
+    def norm_pat(self, p, sv):
+        """Variant names imported into scope (`use Enum::{A, B}`) are written without their enum: a pattern name that is a
+        variant of the scrutinee's enum type is read as `Enum::Name`."""
+        ty = None
+        if isinstance(sv, dict):
+            ty = re.sub(r"^(&|mut\s*)+", "", (sv.get("ty") or "").strip())
+            m0 = re.fullmatch(r"(?:Rc|Box|Arc)<(.*)>", ty)
+            ty = (m0.group(1) if m0 else ty).split("::")[-1].split("<")[0]
+        if not ty or ty not in self.f.enums:
+            return p
+        vs = set(self.f.variants(ty))
+
+        def w(q):
+            k = q["k"]
+            if k in ("ref", "typed"):
+                return dict(q, pat=w(q["pat"]))
+            if k == "or":
+                return dict(q, cases=[w(c) for c in q["cases"]])
+            if k == "ident" and q.get("sub") is None and q["name"] in vs:
+                return {"k": "path", "l": q.get("l"), "segs": [ty, q["name"]], "gen": [None, None], "qself": None}
+            if k in ("tstruct", "struct", "path") and len(q.get("segs", [])) == 1 and q["segs"][0] in vs:
+                return dict(q, segs=[ty, q["segs"][0]])
+            return q
+
+        return w(p)
+
     def ev_match(self, e, st):
         out = []
         for s1, sv in self.ev(e["scrut"], st):
+            e = dict(e, arms=[dict(a_, pat=self.norm_pat(a_["pat"], sv)) for a_ in e["arms"]])
             # literal scrutinee: select statically when possible
             remaining = None  # variants not yet taken by an earlier arm (for the catch-all)
             # a match on a tuple of values is a conjunction of conditions on the components (so that
